@@ -70,12 +70,25 @@ def t2(chk, wc, tier, seed):
     # 3. the partitioner handed to a shuffle dependency
     m = re.search(r"depPart := partitioner\{\s*([^}]*)\}", fn, re.S)
     dep = re.sub(r"\s+", " ", m.group(1)).strip() if m else "?"
+    # 4. Session.run freezes the compile environment of its own copy and of the copies the tasks carry (D25)
+    ssrc = open(wc.repo + "/exec/session.go").read()
+    try:
+        run = ssrc[ssrc.index("func (s *Session) run("):]
+        run = run[:run.index("\n}\n")]
+    except ValueError:
+        run = ""
+    after = run[run.find("compile(inv, slice, s.machineCombiners)"):] if "compile(inv, slice, s.machineCombiners)" in run else ""
+    frozen = ("inv.Env.Freeze()" in after and
+              re.search(r"iterTasks\(tasks, func\(task \*Task\) error \{[^}]*task\.Invocation\.Env\.Freeze\(\)", after, re.S) is not None)
     gen = [
+        "def envFrozenInTaskCopiesG : Bool := %s" % ("true" if frozen else "false"),
         "def compileRangesG : List String := [%s]" % ", ".join('"%s"' % x for x in ranges),
         "def reshuffleFieldsG : List String := [%s]" % ", ".join('"%s"' % x for x in fields),
         'def depPartG : String := "%s"' % dep,
     ]
     ties = [
+        ("env_frozen_in_task_copies", "theorem env_frozen_in_task_copies : envFrozenInTaskCopiesG = true := by decide",
+         "exec/session.go (*Session).run: after compile the environment is frozen in the session's copy and in every task's copy of the invocation"),
         ("ranges_tie", 'theorem ranges_tie : compileRangesG = ["result.tasks", "tasks"] := by decide',
          "exec/compile.go compile: iterates only over task slices (no map iteration)"),
         ("reshuffle_fields_tie",
